@@ -38,6 +38,7 @@ func runC03UDP(t *testing.T, e *worlds.Env, tier string) (bool, any) {
 	var ups *worlds.ProxyUps
 	var addrs []string
 	echo := false
+	echoTimes := 1
 	abortFirst := false
 	client := worlds.UDPClientAddr(1)
 	e.Run(t, func() func() bool {
@@ -45,6 +46,11 @@ func runC03UDP(t *testing.T, e *worlds.Env, tier string) (bool, any) {
 		yieldKnob(e)
 		npeers := 1 + tp.Weighted("npeers", 4, 1)
 		echo = tp.Prob(1, 2, "up-echo")
+		if e.S.Seed%3 == 0 {
+			// wave 13: the echoing upstream answers with four copies of each datagram in one datagram
+			// (up to 32 KiB: larger than anything the client sends). Seed-derived: earlier tapes stay valid.
+			echoTimes = 4
+		}
 		ups = e.NewProxyUps()
 		var dials []string
 		for i := 0; i < npeers; i++ {
@@ -64,6 +70,7 @@ func runC03UDP(t *testing.T, e *worlds.Env, tier string) (bool, any) {
 			}
 			if echo && addr == addrs[0] {
 				sc.Mode = worlds.UpEcho // one peer answers: replies of several peers would interleave arbitrarily
+				sc.EchoTimes = echoTimes
 			}
 			return sc
 		}
@@ -299,13 +306,13 @@ func runC03UDP(t *testing.T, e *worlds.Env, tier string) (bool, any) {
 			}
 			found := -1
 			for i := nextA; i < len(arr); i++ {
-				if bytes.Equal(arr[i].Data, s.Data) {
+				if bytes.Equal(bytes.Repeat(arr[i].Data, echoTimes), s.Data) {
 					found = i
 					break
 				}
 			}
 			if found < 0 {
-				fail("client-stream", "reply #%d to the client (%d bytes, first % x) is not one of its datagrams echoed in order", s.Seq, len(s.Data), head(s.Data, 12))
+				fail("client-stream", "reply #%d to the client (%d bytes, first % x) is not one of its datagrams echoed in order (the upstream answers with %d copies of each datagram in one datagram)", s.Seq, len(s.Data), head(s.Data, 12), echoTimes)
 				return
 			}
 			nextA = found // duplicates delivered by the network may be echoed twice
